@@ -45,6 +45,7 @@ class Arr:
     def T(self): return self
     @property
     def values(self): return self
+    dtype = 'float64'
     def copy(self): return Arr(self._a)
     def __invert__(self): return Arr([core.sym_not(b) for b in self._a])
     def __eq__(self, o):
@@ -324,6 +325,15 @@ class NPX:
         if isinstance(x, SymFloat): return mkbool(z3.Or(x.kind == core.PINF, x.kind == core.NINF))
         if core.is_sym(x): return False
         return self._np.isinf(x)
+    def full(self, shape, fill_value, dtype = None):
+        n = shape[0] if isinstance(shape, tuple) else shape
+        if isinstance(shape, tuple) and len(shape) > 1: raise Unsupported('minipd: 2-d arrays')
+        return Arr([fill_value] * n)
+    def concatenate(self, arrs, axis = 0):
+        out = []
+        for a in arrs: out += list(a)
+        return Arr(out)
+    def array(self, x, **kw): return Arr(list(x))
     def minimum(self, a, b): return _elementwise(a, b, lambda x, y: _nanprop(x, y, lambda p, q: q if q < p else p))
     def maximum(self, a, b): return _elementwise(a, b, lambda x, y: _nanprop(x, y, lambda p, q: q if q > p else p))
 def _isinf(v):
